@@ -162,3 +162,18 @@ Theorem world_cases : forall w,
        else w_id w.
 Proof. exact world_cases_lemma. Qed.
 Print Assumptions world_cases.
+
+(* every detach path (RemoveSentMessage, RemoveAllSentMessages, RemoveNodeInterface,
+   RemoveAllNodeInterfaces, Node.RemoveInterface) leads back to the plain message id, and
+   re-attaching leads back to the builder result *)
+Theorem world_detach : forall w o,
+  detaches o -> w_has_static w = false -> world_can_id (wstep w o) = w_id w.
+Proof. exact world_detach_lemma. Qed.
+Print Assumptions world_detach.
+
+Theorem world_reattach : forall w o,
+  detaches o -> w_has_static w = false ->
+  world_can_id (wstep (wstep (wstep w o) WAttach) WBusAdd)
+  = calculate (nth (w_cur w) (w_builders w) []) (w_prio w) (w_id w) (w_node_id w).
+Proof. exact world_reattach_lemma. Qed.
+Print Assumptions world_reattach.
